@@ -30,10 +30,11 @@ def get_fn(run, ctx, suffix, family, instance):
 _paths_cache = {}
 
 
-def paths_of(node, max_paths=60000, combinators=False):
-    key = (id(node), combinators)
+def paths_of(node, max_paths=60000, combinators=False, scope=None):
+    """scope: the enclosing function body; calls of its local closures are then read as the closures' bodies."""
+    key = (id(node), combinators, id(scope) if scope is not None else None)
     if key not in _paths_cache:
-        _paths_cache[key] = H.enum_paths(node, max_paths=max_paths, combinators=combinators)
+        _paths_cache[key] = H.enum_paths(node, max_paths=max_paths, combinators=combinators, scope=scope)
     return _paths_cache[key]
 
 
@@ -248,7 +249,14 @@ def pat_accepts(pat, scrut, val):
 def consistent(path, val):
     """Is the path feasible under the sample valuation?  True / False / None (a decision could not be evaluated)."""
     unknown = False
+    val = dict(val)
     for ev in path.events:
+        if ev.kind == "let" and ev.node is not None and isinstance(ev.node, dict) and ev.node.get("init") is not None \
+                and (ev.node.get("pat") or {}).get("k") == "Binding":
+            v = eval_node(ev.node["init"], val)
+            if v is not None:
+                val[ev.a] = v          # a copy of a sampled value under another name
+                continue
         if ev.kind == "cond":
             v = eval_node(ev.node, val) if ev.node is not None else None
             if v is None and ev.a in val:
